@@ -8,6 +8,7 @@ import (
 
 	"verif/engine/core"
 	"verif/engine/eco"
+	"verif/engine/gen"
 )
 
 func permutations(n int) [][]int {
@@ -255,6 +256,49 @@ func c16Unit(scheme string, n int, tier string) core.Unit {
 	}}
 }
 
+// c16StarUnit: the match-all range under whitespace and empty constraints.
+func c16StarUnit(scheme string) core.Unit {
+	return core.Unit{Name: "C16/" + scheme + "/star", Weight: 1, Run: func(r *core.Result) {
+		canon := "vers:" + scheme + "/*"
+		var probes []string
+		for _, pool := range versPools[scheme] {
+			probes = append(probes, pool...)
+		}
+		probes = append(probes, "", "not a version", "*")
+		var variants []string
+		pads := []string{"", " ", "  "}
+		for _, a := range pads {
+			for _, b := range pads {
+				star := a + "*" + b
+				variants = append(variants, star)
+				for _, e := range []string{"", " "} {
+					variants = append(variants, e+"|"+star, star+"|"+e, e+"|"+star+"|"+e, e+"|"+e+"|"+star, star+"|"+e+"|"+e)
+				}
+			}
+		}
+		r.Add("states", 1)
+		for _, p := range probes {
+			bg, be, pn := versCall(canon, p)
+			if pn {
+				r.Violate(core.Violation{Property: "C16", Scope: scheme, Kind: "panic", Inputs: []string{canon, p, canon}, Expected: "no panic", Got: "panic"})
+			}
+			for _, v := range gen.Uniq(variants) {
+				rng := "vers:" + scheme + "/" + v
+				g, e, pn := versCall(rng, p)
+				r.Add("variants", 1)
+				r.Add("evaluations", 1)
+				if bg {
+					r.Add("true_results", 1)
+				}
+				if pn || g != bg || e != be {
+					r.Violate(core.Violation{Property: "C16", Scope: scheme, Kind: "variant-star",
+						Inputs: []string{rng, p, canon}, Expected: fmt.Sprintf("same as canonical spelling: %v err=%v", bg, be), Got: fmt.Sprintf("%v err=%v panic=%v", g, e, pn), Note: "star"})
+				}
+			}
+		}
+	}}
+}
+
 func init() {
 	core.Register(&core.Prop{
 		ID:    "C16",
@@ -262,6 +306,7 @@ func init() {
 		Units: func(tier string) []core.Unit {
 			var us []core.Unit
 			for _, s := range eco.Schemes {
+				us = append(us, c16StarUnit(s))
 				for n := 1; n <= c16MaxN(tier); n++ {
 					us = append(us, c16Unit(s, n, tier))
 				}
@@ -283,7 +328,7 @@ func init() {
 				"max_constraints":               c16MaxN(tier),
 			}
 		},
-		Rule:        "base ranges = every spec-valid comparator shape of length 1..n (quick 3, thorough 6; at n=5 every 4th shape, at n=6 every 64th shape with all 720 permutations) instantiated from the increasing pools of C04 (pairwise non-equivalent versions); variants of each: ALL permutations of the constraints; space insertion at every subset of slots (before, inside a 2-character operator, between operator and version, inside the version, after) for <= 10 slots, else every single slot, every pair of slots and all slots; every non-empty subset of constraints duplicated (adjacent / at the far end / with different spacing); an empty constraint in every subset of gaps, blank constraints; one combined variant. Every variant is evaluated on every probe and must give the same (result, error-ness) as the canonical spelling. states = base ranges, transitions = variants, distinct_nontrivial = comparisons whose canonical result is true.",
+		Rule:        "base ranges = every spec-valid comparator shape of length 1..n (quick 3, thorough 6; at n=5 every 4th shape, at n=6 every 64th shape with all 720 permutations) instantiated from the increasing pools of C04 (pairwise non-equivalent versions); variants of each: ALL permutations of the constraints; space insertion at every subset of slots (before, inside a 2-character operator, between operator and version, inside the version, after) for <= 10 slots, else every single slot, every pair of slots and all slots; every non-empty subset of constraints duplicated (adjacent / at the far end / with different spacing); an empty constraint in every subset of gaps, blank constraints; one combined variant; plus the match-all range '*' padded with 0-2 spaces on either side and surrounded by empty / blank constraints in every position. Every variant is evaluated on every probe and must give the same (result, error-ness) as the canonical spelling. states = base ranges, transitions = variants, distinct_nontrivial = comparisons whose canonical result is true.",
 		Assumptions: []string{"only the space character is inserted (TAB/CR/LF are non-printable and belong to C17)", "n > 5 and sampled permutations beyond 6 constraints are not explored"},
 	})
 }
